@@ -275,10 +275,10 @@ fn more_family<S: Strat + arc_swap::strategy::Strategy<crate::api::V2> + arc_swa
                 &["C11"],
                 mode,
                 4,
-                "T{load, exit} || W{store} step by step, S{first use: load} starting inside, W2{store} as one complete call placed anywhere",
+                "T{load, exit} || W{store} || S{first use of the crate inside the race: store, load, load}, 3 preemptions",
                 move || h_more::churn_help::<S>(fill),
             );
-            x.k = 1;
+            x.k = 0;
             x.p_with_k = Some(3);
             x.thorough_only = true;
             out.push(x);
